@@ -141,6 +141,7 @@ func runScan(sc scanScenario) scanRun {
 		}
 		prevHB = cut.Entries == 0
 		cut.Heartbeat = sc.hbFlag
+		cut.HeartbeatWithResults = sc.hbFlag && resp%3 == 1
 		cut.EmptyFirst = sc.emptyFirst && !sc.partial && resp%2 == 0 // (a user who asked for partial results is handed whatever comes)
 		if sc.earlyAtResp == resp {
 			cut.CutLastAfter = 0 // a server ends a scan at a row boundary only
